@@ -7,6 +7,7 @@ import (
 	"go/token"
 	"go/types"
 	"sort"
+	"strings"
 
 	"golang.org/x/tools/go/cfg"
 	"golang.org/x/tools/go/ssa"
@@ -594,4 +595,132 @@ func ruleRecordKind(c *Ctx, pkgs ...string) {
 		}
 	}
 	c.Floor("functions decoding node records", n, 2)
+}
+
+// ---------------------------------------------------------------------------
+// stage-gated-accessor (C20): statesync.Module.BlockHeight panics ("program bug") unless the module is inactive or
+// its MPT stage is complete. A P2P message is not a program bug: every way from the message handler to that accessor
+// must pass, in some function on the way, a branch on the module's stage predicate (NeedBlocks, or a test of
+// syncStage itself) that controls the onward call. The call graph is walked from each command handler; an edge is
+// cut when the calling function gates the call site by such a predicate; what is still reachable is reported with
+// its path. One data-gated site is tabled.
+var stageGateValidators = []string{"pkg/network.(StateSync).NeedBlocks", "pkg/core/statesync.(*Module).NeedBlocks", "pkg/core/statesync#syncStage"}
+
+var stageGateTabled = map[string]string{
+	"pkg/network.(*Server).requestBlocksOrHeaders": "the queuer asked for its height is the state-sync module only when NeedBlocks() answered true two statements earlier (the module is selected by data, not by a branch around the call)",
+}
+
+func ruleStageGatedAccessor(c *Ctx) {
+	g := c.P.MRG()
+	hm := c.P.Func("pkg/network", "Server", "handleMessage")
+	tgt := c.P.Func("pkg/core/statesync", "Module", "BlockHeight")
+	if hm == nil || tgt == nil {
+		c.Lost("stage-gated-accessor.anchor", "Server.handleMessage or statesync.Module.BlockHeight not found")
+		return
+	}
+	tfn := c.P.SSAFunc(tgt.Obj)
+	// the accessor must still be the panicking one
+	hasPanic := false
+	for _, b := range tfn.Blocks {
+		for _, ins := range b.Instrs {
+			if _, ok := ins.(*ssa.Panic); ok {
+				hasPanic = true
+			}
+		}
+	}
+	if !hasPanic {
+		c.OK("stage-gated-accessor.accessor", c.P.Pos(tgt.Decl.Pos()), "Module.BlockHeight no longer panics on an early stage: nothing to gate")
+		return
+	}
+	gatedCache := map[*MEdge]bool{}
+	cfgCache := map[*ssa.Function]*FuncCFG{}
+	gated := func(e *MEdge) bool {
+		if v, ok := gatedCache[e]; ok {
+			return v
+		}
+		res := false
+		fn := e.Caller.Fn
+		f, ok := cfgCache[fn]
+		if !ok {
+			if obj, _ := fn.Object().(*types.Func); obj != nil {
+				if fd := c.P.DeclOf(obj); fd != nil {
+					f = c.P.NewFuncCFG(fd)
+				}
+			}
+			cfgCache[fn] = f
+		}
+		if f != nil && e.Site != nil && e.Site.Pos().IsValid() {
+			// the block holding the call site
+			var tb []*cfg.Block
+			for _, b := range f.G.Blocks {
+				if !b.Live {
+					continue
+				}
+				for _, nd := range b.Nodes {
+					if nd.Pos() <= e.Site.Pos() && e.Site.Pos() < nd.End() {
+						tb = append(tb, b)
+					}
+				}
+			}
+			if len(tb) > 0 {
+				tm := map[*cfg.Block]bool{}
+				for _, b := range tb {
+					tm[b] = true
+				}
+				for _, v := range stageGateValidators {
+					if r := f.CheckGate(f.Entry(), tm, Guard{ID: "stage", Doc: "stage predicate", Alts: [][]string{{v}}, WholeOpen: true}, nil); r.OK {
+						res = true
+						break
+					}
+				}
+			}
+		}
+		gatedCache[e] = res
+		return res
+	}
+	nh := 0
+	root := c.P.SSAFunc(hm.Obj)
+	var handlers []*MEdge
+	seenH := map[*ssa.Function]bool{}
+	for _, e := range g.Nodes[root].Out {
+		if e.Kind == "static" && e.Callee.Fn.Pkg != nil && pkgRel(e.Callee.Fn.Pkg.Pkg) == "pkg/network" && strings.HasPrefix(e.Callee.Fn.Name(), "handle") && !seenH[e.Callee.Fn] {
+			seenH[e.Callee.Fn] = true
+			handlers = append(handlers, e)
+		}
+	}
+	sort.Slice(handlers, func(i, j int) bool { return handlers[i].Callee.Fn.Name() < handlers[j].Callee.Fn.Name() })
+	for _, he := range handlers {
+		h := he.Callee.Fn
+		nh++
+		via := g.Reach([]*ssa.Function{h}, gated)
+		key := "stage-gated-accessor." + h.Name()
+		if _, ok := via[tfn]; !ok {
+			c.OK(key, c.P.Pos(h.Pos()), "every way from this command handler to Module.BlockHeight passes a branch on the module's stage, or there is none")
+			continue
+		}
+		// the direct caller on the recorded path
+		path := g.PathTo(via, tfn)
+		direct := ""
+		if e := via[tfn]; e != nil {
+			direct = FnKey(e.Caller.Fn)
+		}
+		tabled := false
+		for cur := tfn; cur != nil; {
+			e := via[cur]
+			if e == nil {
+				break
+			}
+			if _, ok := stageGateTabled[FnKey(e.Caller.Fn)]; ok {
+				tabled = true
+				direct = FnKey(e.Caller.Fn)
+			}
+			cur = e.Caller.Fn
+		}
+		if tabled {
+			c.OK(key, c.P.Pos(h.Pos()), "tabled: "+stageGateTabled[direct])
+			continue
+		}
+		c.Fail(key, c.P.Pos(h.Pos()), fmt.Sprintf("a %s message reaches statesync.Module.BlockHeight (through %s) without any branch on the module's stage on the way: while headers or MPT data are still being synchronised the accessor panics (\"block height is not yet initialized since MPT is not in sync\") and a peer's ordinary message stops the node", strings.TrimPrefix(strings.TrimSuffix(h.Name(), "Cmd"), "handle"), shortSym(direct)), path...)
+	}
+	c.Floor("P2P command handlers", nh, 15)
 }
